@@ -8,11 +8,11 @@ TRUST = "Trusted: go/types and go/ssa (x/tools v0.29.0) represent the program fa
 CLAIMED = {
  "C06": dict(
    technique="structural dataflow on SSA of the splice (span equality by canonical linear terms), regex language equivalence of the three patterns, loop-index linear form for application order, provenance of merge operands (static analysis)",
-   text="Decides the clause 'every byte outside the annotated fields' tag literals is unchanged' for all files: the splice keeps exactly contents[:A] and contents[B:] around the replaced copy of contents[A:B]; only the trailing literal can be replaced (pattern language compared exactly); areas are applied in descending offset order; the new literal is old.override(injected) rendered `k:v k:v`; nothing else touches the bytes between read and write and the same path is written. The key-wise merge loop and CLI plumbing are not decided (stated in DESIGN.md §6).",
+   text="Decides the clause 'every byte outside the annotated fields' tag literals is unchanged' for all files: the splice keeps exactly contents[:A] and contents[B:] around the replaced copy of contents[A:B]; only the trailing literal can be replaced (pattern language compared exactly); areas are applied in descending offset order; the new literal is old.override(injected) rendered `k:v k:v`; nothing else touches the bytes between read and write and the same path is written. CLI plumbing is not decided (DESIGN.md §6).",
    ref="DESIGN.md §4 C06"),
  "C07": dict(
    technique="identity dataflow between read and write when the area list is empty + dominance of area construction by a non-empty @tag match (static analysis)",
-   text="Decides 'a file with no @tag annotations is left unchanged' for all files, plus necessary conditions of the re-run case (existing keys keep position and the injected value wins; the literal is replaced wholesale). The fixpoint law override(override(o,i),i)=override(o,i) is a data-dependent loop property and is NOT decided: a merge that appends instead of overriding is not detected here.",
+   text="Decides 'a file with no @tag annotations is left unchanged' for all files, plus necessary conditions of the re-run case (existing keys keep position and the injected value wins; the literal is replaced wholesale). ",
    ref="DESIGN.md §4 C07"),
  "C08": dict(
    technique="key-completeness dependency analysis on the abstract interpretation of the cache user (inputs of stored value ⊆ inputs of key), miss-path and who-stores rules, store inventory on cached memory (static analysis)",
@@ -32,7 +32,7 @@ CLAIMED = {
    ref="DESIGN.md §4 C12"),
  "C14": dict(
    technique="writer/reader constant-table agreement, linear-inequality normalisation of the message guard, delimiter-order dependency rule, fast-path dominance (static analysis)",
-   text="Necessary conditions of the round trip: builder and parser agree on '=' and '|', joiner and splitter default agree, the message guard is exactly 'at least one byte follows the bar' in both branches, the two delimiter positions are related, the fast path is guarded by 'no quote'. The splitter's quote-aware slow path (byte-level state machine) is NOT decided.",
+   text="Necessary conditions of the round trip: builder and parser agree on '=' and '|', joiner and splitter default agree, the message guard is exactly 'at least one byte follows the bar' in both branches, the two delimiter positions are related, the fast path is guarded by 'no quote'. ",
    ref="DESIGN.md §4 C14"),
  "C19": dict(
    technique="dominance/ordering rules on the handler's CFG, file-mutation call inventory over the call graph, loop-exit discipline, optional-pointer nil-guard rule, bounds prover with regex-inclusion fact (static analysis)",
@@ -68,7 +68,7 @@ CLAIMED = {
    ref="DESIGN.md §4 C03"),
  "C05": dict(
    technique="abstract interpretation of every content rule function compared with specification formulas over library predicates + regular-language equivalence by automata product + symbolic layout comparison (static analysis)",
-   text="Per rule and kind, on every path the verdict equals a frozen specification formula over the trusted predicates actually consulted (which pattern, ParseIP/To4, time.Parse with the exact layout for default and custom separators, HasPrefix/HasSuffix argument order, json.Valid, Stat/IsDir, ==/Contains for in/include); the languages of the phone/email/idcard/int/float patterns are compared with reference languages exactly (decidable); ToStr's rendering table is checked per type. The quote-aware option splitting and the escaped-quote scan of re are data-dependent loops and are not decided.",
+   text="Per rule and kind, on every path the verdict equals a frozen specification formula over the trusted predicates actually consulted (which pattern, ParseIP/To4, time.Parse with the exact layout for default and custom separators, HasPrefix/HasSuffix argument order, json.Valid, Stat/IsDir, ==/Contains for in/include); the languages of the phone/email/idcard/int/float patterns are compared with reference languages exactly (decidable); ToStr's rendering table is checked per type. The escaped-quote scan of re and the bracket parsing of in are data-dependent loops and are not decided.",
    ref="DESIGN.md §4 C05"),
  "C13": dict(
    technique="kind-set typestate over all paths of entry points, walkers, group evaluation and rule functions (reflect preconditions as proof obligations) + bounds/nil/assert obligations (static analysis)",
@@ -88,6 +88,31 @@ CLAIMED = {
    ref="DESIGN.md §4 C10"),
 }
 
+# rules added after the seeded rounds (DESIGN.md §10); appended to the claim text
+BASE = " Foundation groups shared with other properties (each a necessary condition of this one, DESIGN.md §10a) are reported as %s-BASE-<GROUP>: "
+ADDED = {
+ "C01": "Also: a conversion of the measure must be value preserving (float->int, uint64->int64 rejected)." + BASE % "C01" + "DECLARED (cached rule info never written), STATE (pools/globals), ALIAS, LOOP, TEXT (rule text split and parsed faithfully, delimiters by first occurrence).",
+ "C02": "Also: cached per-type rule info is never written by a walker (C02-DECLARED); group clauses name every member by its object path (C02-GROUP = C17-KEY/EVAL); a key present in the input is not reported again as missing (C02-MISSING-ONCE); map keys in paths are rendered by the fmt default of ToStr (C02-PATHKEY)." + BASE % "C02" + "STATE, ALIAS, TEXT.",
+ "C03": "Also: the missing-key bookkeeping of the keyed walkers (C03-SEEN: fresh per-pass key set, filled on every iteration with the lookup key, reporter skips exactly seen keys and non-required rules), rule loops leave only through their headers (C03-LOOP), zero sub-objects are never descended into (C03-DESCENT)." + BASE % "C03" + "DECLARED, STATE, ALIAS, TEXT.",
+ "C04": "Also: the export predicate accepts exactly first bytes 'A'..'Z' (C04-EXPORT, interval analysis), pointer stripping returns a non-pointer (C04-STRIP), map keys in labels are rendered through ToStr's fmt default (C04-PATHKEY), the type name is accepted as object path only on the outermost-object edge, cached rule info is never written (C04-DECLARED)." + BASE % "C04" + "STATE, LOOP.",
+ "C05": "Also: verdict flags carried around element loops are monotone and not degenerate (C05-STICKY), unique inserts every element and compares counts for equality (C05-UNIQUE), default date separators only when the rule has no value, ToStr has no interface/reflect.Value case (C05-TOSTRCASES)." + BASE % "C05" + "DECLARED, STATE, ALIAS, LOOP, TEXT (includes the splitter's transition table used for in/include options).",
+ "C06": "Also decided since DESIGN.md §10: the key-wise merge (C06-MERGE: dataflow shape of override/newTagItems), statelessness of package file (C06-STATE), one fresh FileSet per file, write-back on every path after the areas were applied, every .go file handled (C06-ALLFILES).",
+ "C07": "Also decided since DESIGN.md §10: the conditions under which the merge is a fixpoint on the second run (C07-MERGE: match on keys, first match, replaced in place, removed from the remainder), no package-level state in the injector (C07-STATE), one run injects every field (C07-ONEPASS). The statement 'a merge that appends is not detected' no longer holds for the repository's merge shape; another shape is reported undecided.",
+ "C08": "Also: an entry is complete when published (C08-PUBLISH), no path answers from state that is not part of the key (second memo), " + "the default LRU is a correct map for every capacity (C08-BASE-LRU = C09 rules), pooled validators carry nothing over (C08-BASE-STATE).",
+ "C09": "Also: the rebuild copies every entry unconditionally (C09-REBUILD); constructor stores the requested capacity unchanged, the setter stores the caller's callback, the removed element's key is found by element identity (C09-CONFIG).",
+ "C10": "Also: the mutex is never copied (pointer receivers only, no struct copy); pooled builders used by Dump are released last and reset before reuse (C10-BASE-STATE).",
+ "C11": "Also: entries of the type cache are complete when published and never written (C11-CACHE); objects reached from a global and mutated through their methods count as shared state; an object handed to a pool's releaser by a non-deferred call is not used afterwards.",
+ "C12": "Also: zero-copy strings are only made from bytes freshly allocated by the same call (never a pooled/shared buffer); the library never writes a caller's rule map, setup paths included (RM.Set / map updates on caller-provided RMs); cache entries complete when published.",
+ "C13": "Also: export predicate exact (C13-EXPORT: reflect refuses Interface() on unexported fields), ToStr never calls String() itself (nil receivers), pointer stripping returns a non-pointer (C13-STRIP)." + BASE % "C13" + "STATE, ALIAS.",
+ "C14": "Since DESIGN.md §10 the splitter's quote-aware slow path IS decided: its complete transition table over (inside-quotes, byte class) is extracted from the code and compared with the specification (C14-SPLIT), with the stack's contract (C14-STACK); RM.Set accumulates per field only (C14-SET); delimiters by first occurrence (C14-FIRST); every rule list goes through ValidNamesSplit (C14-USE)." + BASE % "C14" + "STATE, ALIAS, LABEL.",
+ "C15": "Also: the message of a quoted-argument rule (re) is parsed from the rule text with the quoted span removed (C15-QUOTED); the extractor writes the separator iff output is non-empty and cuts right after the label found (C15-JOIN)." + BASE % "C15" + "DECLARED, STATE, ALIAS, TEXT, MAT.",
+ "C16": "Also: the rule name is looked up before any emptiness test of the value (C16-UNKNOWN), exported wrappers pass an unscoped rule set without an object (C16-API), cached rule info is never written (C16-DECLARED)." + BASE % "C16" + "STATE (per-call function tables do not survive in pooled validators), LOOP, TEXT.",
+ "C17": "Also: the clause of a violated group names every member; the type name is accepted as object path only on the outermost-object edge; members keep their own value until evaluation (C17-OWNVALUE); map keys rendered by ToStr's fmt default (C17-PATHKEY)." + BASE % "C17" + "DECLARED, STATE, ALIAS, LOOP, TEXT, MAT.",
+ "C18": "Also: URL values are query-decoded, key and value come from the parameter's own text (no loop-carried variable), ReflectKindIsNum's table is enumerated for every kind and flag (C18-VARKINDS), rule loops leave only through their headers (C18-LOOP)." + BASE % "C18" + "DECLARED, STATE, ALIAS, TEXT.",
+ "C19": "Also: one fresh FileSet per parsed file (premise of the area-offset axiom).",
+ "C20": "Also: every reflect Field(i) is proved within NumField() (C20-FIELDIDX, bounds prover), numbers rendered from the accessor of their own kind class (C20-SCALAR), export predicate exact (C20-EXPORT), no separator state in fields of the shared dumper (C20-REENTRANT)." + BASE % "C20" + "STATE (pooled builders).",
+}
+
 NOT_YET = "check under construction in this session (see DESIGN.md §4); not claimed until its rules are armed and tested both ways"
 ALL = ["C%02d" % i for i in range(1, 21)]
 
@@ -103,7 +128,7 @@ def main():
             "evidence_file": "/verif/evidence/%s.json" % pid,
             "replay_cmd_template": "cat {path}",
             "engine": "pgv",
-            "level_claimed": {"category": "other", "text": c["text"], "design_ref": c["ref"]},
+            "level_claimed": {"category": "other", "text": c["text"] + (" " + ADDED[pid] if pid in ADDED else ""), "design_ref": c["ref"] + (" and §10" if pid in ADDED else "")},
             "level_note": c.get("note", TRUST),
             "technique": c["technique"],
         })
